@@ -10,7 +10,9 @@ import astwire
 import implobs
 from gens.programs import Opts, Gen
 
-THEOREMS = ['while_correction_write_set', 'while_correction_spares_constants', 'loop_correction_write_set', 'fixpoint_diagonal_no_zero', 'rEx_wf', 'rEx_fixpoint', 'corrections_never_touch_shared_constants']
+THEOREMS = ['while_correction_write_set', 'while_correction_spares_constants', 'loop_correction_write_set', 'fixpoint_diagonal_no_zero', 'rEx_wf', 'rEx_fixpoint', 'corrections_never_touch_shared_constants',
+            'file_entry_is_named_after_function', 'file_results_are_per_function', 'file_entry_is_entry_alone',
+            'file_duplicate_name_replaces', 'file_failures_are_per_function', 'file_loop_results_are_per_function']
 RULE = ('a pool of generated functions and files of the repository corpus (c_files) is analysed (a) each alone in a '
         'fresh interpreter (reference), (b) in one process in random order, repeatedly and in different modes '
         '(function mode fin on/off, loop mode) interleaved, (c) as one of several functions of a file, (d) in fresh '
@@ -18,7 +20,8 @@ RULE = ('a pool of generated functions and files of the repository corpus (c_fil
         'aside); the shared zero / unit polynomials of pymwp.matrix are snapshotted before and after every analysis; '
         'the caller tree is snapshotted and must be unchanged for fully supported functions and equal to the removal '
         'pass otherwise; non-trivial = history has >=3 analyses with a loop among them; distinct by (history position, '
-        'source, mode)')
+        'source, mode); (e) the file-level drivers are diffed against their Lean model (Model/Run.lean) on multi-function '
+        'files (duplicate names included), strict and fin on/off, function and loop mode')
 EXPLANATION = 'see DESIGN.md C13'
 ASSUMPTIONS = ['CPython object identity / aliasing and set ordering are explored, not proved']
 PY = sys.executable
@@ -104,6 +107,9 @@ def run(ctx):
         pool.append(g.function())
     pool += corpus_sources(ctx.budget(6, 40))
     pool.append('int f(int x,int y){ while (x < 1) { x = x + x; } }')
+    # sugar that the analysis rewrites on the fly (must happen on copies, never in the caller's tree)
+    pool.append('int f(int x,int y,int z){ y = (int)(x * z); while (x < 1) { x = (long)y; z = -x; y = x++; } }')
+    pool.append('int f(int x,int y){ x = (int)(long)(y + y); y = !x; L1: x = +y; }')
     pool.append('int f(int n,int x,int y){ int i; for (i = 0; i < n; i++) { x = x + y; y = x; } }')
     modes = [('F', False), ('F', True), ('L', False)]
     jobs = [(s, m, f) for s in pool for (m, f) in modes]
@@ -166,6 +172,10 @@ def run(ctx):
             if ga != ra.get(key, {}).get('f'):
                 ctx.violation({'kind': 'result-depends-on-other-functions'},
                               f'function f analysed in a two-function file differs from f alone ({m}, fin={f})', {'src': both, 'mode': m, 'fin': f})
+    # (e) the file-level drivers against their Lean model (Mwp/Model/Run.lean): which functions / loops get a
+    #     result, in which order, under which name, on which tree -- strict on/off, fin on/off
+    if ctx.drv is not None:
+        file_level(ctx, pool)
     # (d) hash seeds
     seeds = list(range(1, ctx.budget(3, 12)))
     sub = [(s, m, f) for s in pool[:ctx.budget(10, 60)] for (m, f) in modes]
@@ -178,6 +188,86 @@ def run(ctx):
                 ctx.violation({'kind': 'result-depends-on-hash-seed'},
                               f'PYTHONHASHSEED={sd}: result of `{job[0][:100]}` ({job[1]}, fin={job[2]}) differs as a JSON value',
                               {'src': job[0], 'mode': job[1], 'fin': job[2], 'seed': sd})
+
+
+def file_level(ctx, pool):
+    from pymwp import Analysis, LoopAnalysis, Parser as pr
+    from props import funcs_common as FC
+    rng = ctx.rng
+    singles = [s for s in pool if s.count('int f') == 1 and s.strip().startswith('int f(')]
+    files = []
+    names = ['f', 'g', 'h', 'k']
+    for _ in range(ctx.budget(14, 200)):
+        k = rng.choice([1, 2, 2, 3, 4])
+        parts = []
+        for i in range(k):
+            nm = names[i] if rng.random() < 0.9 else 'f'        # sometimes the same name twice
+            parts.append(rng.choice(singles).replace('int f(', f'int {nm}(', 1))
+        files.append('\n'.join(parts))
+    files.append('int f(int x){ x = x + 1; }\nint g(int y){ y = y * y; }\nint f(int z){ while (z < 1) { z = z + z; } }')
+    files.append('int f(int x,int y){ while (x) g(x); while (y) { g(y); x = y; } }\nint g(int y){ y = a[1]; }')
+    for src in files:
+        try:
+            ast = astwire.parse(src)
+        except Exception:
+            continue
+        fwires = [astwire.W(f) for f in astwire.funcs(ast)]
+        for strict in (False, True):
+            for fin in (False, True):
+                val, err = implobs.with_time_limit(lambda: Analysis.run(copy.deepcopy(ast), fin=fin, strict=strict))
+                ctx.case(('file', src, strict, fin), nontrivial=len(fwires) > 1)
+                ctx.count('file_level_function_mode')
+                m = ctx.drv.call('model.run_file', asts=fwires, fin=fin, strict=strict)['ok']
+                if err is not None:
+                    if err['raised'] == 'Timeout':
+                        ctx.count('file_level_timeouts')
+                    elif 'raised' not in m:
+                        ctx.disagree('model.run_file(raise)', {'src': src, 'strict': strict, 'fin': fin, 'impl': err})
+                    continue
+                if 'raised' in m:
+                    ctx.disagree('model.run_file(raise)', {'src': src, 'strict': strict, 'fin': fin, 'model': m})
+                    continue
+                impl = [(name, implobs.obs_of_result(fr)) for name, fr in val.relations.items()]
+                if [n for n, _ in impl] != [e[0] for e in m]:
+                    ctx.disagree('model.run_file(keys)', {'src': src, 'strict': strict, 'fin': fin,
+                                                          'impl': [n for n, _ in impl], 'model': [e[0] for e in m]})
+                    continue
+                for (name, obs), (_, mo) in zip(impl, m):
+                    FC.compare_model(ctx, src, fin, strict, obs, mo, 'file-level:' + name)
+            # loop mode
+            val, err = implobs.with_time_limit(lambda: LoopAnalysis.run(copy.deepcopy(ast), strict=strict))
+            ctx.count('file_level_loop_mode')
+            m = ctx.drv.call('model.run_loops', asts=fwires, strict=strict)['ok']
+            if err is not None:
+                if err['raised'] != 'Timeout' and 'raised' not in m:
+                    ctx.disagree('model.run_loops(raise)', {'src': src, 'strict': strict, 'impl': err})
+                continue
+            if 'raised' in m:
+                ctx.disagree('model.run_loops(raise)', {'src': src, 'strict': strict, 'model': m})
+                continue
+            impl = []
+            for name, fl in val.loops.items():
+                codes = []
+                for lp in fl.loops:
+                    try:
+                        st = astwire.parse('int solo(){ %s }' % lp.loop_code).ext[0].body.block_items[0]
+                        codes.append(astwire.W(st))
+                    except Exception:
+                        codes.append({'unparseable': lp.loop_code[:80]})
+                impl.append([name, codes])
+            def norm(w):
+                # the loop code is re-parsed from its printed form: `{ }` reads back as an empty block
+                if isinstance(w, dict):
+                    d = {k: norm(v) for k, v in w.items()}
+                    if d.get('k') == 'compound' and d.get('items') == []:
+                        d['items'] = None
+                    return d
+                if isinstance(w, list):
+                    return [norm(x) for x in w]
+                return w
+            if json.dumps(norm(impl), sort_keys=True) != json.dumps(norm([[e[0], e[1]] for e in m]), sort_keys=True):
+                ctx.disagree('model.run_loops', {'src': src, 'strict': strict,
+                                                 'impl': [[n, len(c)] for n, c in impl], 'model': [[e[0], len(e[1])] for e in m]})
 
 
 def replay(ctx, payload):
